@@ -101,11 +101,79 @@ def c01_cases():
             h = H([root, leaf])
             out.append((f"mixin-{pos}-frozen-parent-{tag}", c01.make_case(h, call("t1"))))
             out.append((f"mixin-{pos}-frozen-parent-{tag}-kw", c01.make_case(h, call(x="t1", y="t2"))))
+    # -- a converting, hooked base <- plain class <- SLOTTED subclass whose own fields convert nothing: the inherited
+    #    converter must still run exactly once (non-idempotent symbolic converters show a second application)
+    plain = {"kind": "plain", "name": "P1", "plain_slots": False, "pre": "none", "post": False}
+    for tag, base, leaf in (
+            ("define-define", C("C0", "define", [F("x", converter="plain"), F("y", default="value", converter="c10")]),
+             C("C2", "define", [F("w", default="factory")])),
+            ("define-define-no-own-fields", C("C0", "define", [F("x", converter="c01")]), C("C2", "define", [])),
+            ("attr-s-pipecv-slots", C("C0", "attr.s", [F("x", converter="plain")], cls_on_setattr="pipeCV"),
+             C("C2", "attr.s", [F("w", default="value")], slots=True, cls_on_setattr="pipeCV")),
+            ("attr-s-convert-make-class", C("C0", "attr.s", [F("x", converter="c11")], cls_on_setattr="convert"),
+             C("C2", "make_class", [F("w", default="value")], slots=True, cls_on_setattr="convert", collect_by_mro=True)),
+            ("define-chain", C("C0", "define", [F("x", converter="pipe", pipe=["plain", "c10"], pipe_style="list")]),
+             C("C2", "define", [F("w", default="value")]))):
+        h = H([base, dict(plain), leaf])
+        assert not ib.confusing_plain(h["classes"]), tag
+        out.append((f"plain-mid-slotted-leaf-{tag}", c01.make_case(h, call("t1"))))
+        out.append((f"plain-mid-slotted-leaf-{tag}-kw", c01.make_case(h, call(x="t1"))))
+    # -- a subclass re-declares a base's field by a BARE annotation without value: mandatory, whatever the base keeps under
+    #    that name (a slot descriptor for a slotted base)
+    for tag, api in (("define", "define"), ("frozen", "frozen")):
+        for bslots in (True, False):
+            base = C("C0", api, [F("x")], slots=bslots)
+            leaf = C("C1", api, [F("x", type="int", annotated=True, bare=True), F("w", type="int", annotated=True, bare=True, default="value")])
+            h = H([base, leaf])
+            out.append((f"bare-annotation-overrides-base-field-{tag}-base-slots-{bslots}", c01.make_case(h, call())))
+            out.append((f"bare-annotation-overrides-base-field-{tag}-base-slots-{bslots}-passed", c01.make_case(h, call(x="t1"))))
+    # -- declared defaults that are instances of str / int / bytes SUBCLASSES: the field holds the declared object
+    for tag, api, extra in (("attr-s", "attr.s", {}), ("define", "define", {}), ("frozen", "frozen", {}), ("make-class", "make_class", {}),
+                            ("these", "these", {}), ("attr-s-slots-kw", "attr.s", {"slots": True, "kw_only": True})):
+        fields = [F("x", default="value", dflt_kind="strsub"), F("y", default="value", dflt_kind="intsub"),
+                  F("z", default="value", dflt_kind="bytessub"), F("w", default="value", dflt_kind="intsub", converter="plain"),
+                  F("a_b", default="value", dflt_kind="strsub", init=False)]
+        h = H([C("C0", api, fields, **extra)])
+        out.append((f"subclass-defaults-{tag}", c01.make_case(h, call())))
+        h2 = H([C("C0", api, fields[:2], **{k: v for k, v in extra.items() if k != "kw_only"}), C("C1", api, [F("p", default="value", dflt_kind="bytessub")], **extra)])
+        out.append((f"subclass-defaults-{tag}-inherited", c01.make_case(h2, call())))
+    hb = H([C("C0", "define", [F("x", default="value", dflt_kind="intsub", type="int", annotated=True, bare=True),
+                               F("y", default="value", dflt_kind="strsub", type="int", annotated=True, bare=True)])])
+    out.append(("subclass-defaults-bare-annotations", c01.make_case(hb, call())))
+    # -- hostile-but-valid callable OBJECTS as factory (both spellings, init=False too), converter, validator
+    for kind in sorted(ib.CB_ODD):
+        for tag, api in (("attr-s", "attr.s"), ("define", "define"), ("make-class", "make_class"), ("these", "these")):
+            fields = [F("x", default="factory", factory_style="sugar", cb_odd=kind),
+                      F("y", default="factory", factory_style="Factory", cb_odd=kind, converter="plain"),
+                      F("z", default="factory_self", cb_odd=kind, kw_only=True),
+                      F("w", default="factory", factory_style="sugar", cb_odd=kind, init=False, converter="c10"),
+                      F("p", default="decorator", cb_odd=kind, init=False)]
+            h = H([C("C0", api, fields)])
+            out.append((f"hostile-callable-{kind}-{tag}-defaults", c01.make_case(h, call())))
+            out.append((f"hostile-callable-{kind}-{tag}-passed", c01.make_case(h, call("t1", "t2", z="t3"))))
     return out
 
 
 def c02_cases():
     out = []
+    # -- auto_exc classes whose post-init hook re-stores init fields / calls BaseException.__init__ itself: args is
+    #    compared AFTER construction, element by element, with the objects the fields hold
+    for mode in ("swap", "excinit", "both"):
+        for tag, api, extra in (("define", "define", {}), ("attr-s-slots", "attr.s", {"auto_exc": True, "slots": True}),
+                                ("frozen", "frozen", {}), ("make-class", "make_class", {"auto_exc": True})):
+            for root in ("Exception", "BaseException"):
+                fields = [F("x"), F("y", default="value"), F("z", default="factory", converter="plain"), F("w", init=False, default="value")]
+                h = H([C("C0", api, fields, post=True, post_mode=mode, **extra)], exc_root=root)
+                out.append((f"post-init-{mode}-{root}-{tag}", c02.make_case(h, call("t1"), None, True)))
+                out.append((f"post-init-{mode}-{root}-{tag}-kw", c02.make_case(h, call(x="t1", y="t2", z="t3"), None, True)))
+        hp = H([C("C0", "attr.s", [F("x")], auto_exc=True, post=True, post_mode=mode), C("C1", "define", [F("y", default="value", kw_only=True)])],
+               exc_root="ValueError")
+        out.append((f"post-init-{mode}-inherited-hook", c02.make_case(hp, call("t1", y="t2"), None, True)))
+    # -- hostile-but-valid callable objects as validators / converters in the full trace
+    for kind in sorted(ib.CB_ODD):
+        h = H([C("C0", "attr.s", [F("x", converter="c10", validators=2, cb_odd=kind), F("y", default="factory", converter="plain", validators=1, cb_odd=kind)],
+                 post=True)])
+        out.append((f"hostile-callable-{kind}-trace", c02.make_case(h, call("t1"), None, True)))
     # -- converter chains mixing plain callables and Converter instances: every member once, left to right, each with
     #    what IT asked for; a member that raises ends the construction
     for chain in (["c10", "plain", "plain"], ["plain", "plain", "c10"], ["c11", "plain"], ["plain", "c01", "plain"],
